@@ -71,4 +71,18 @@ theorem forward_eq_reverse (p : Prog R) (hp : p.WellScoped) (h : Nat) (env : Nat
 
 example : Prog.WellScoped ([.var, .numPow 2 0, .real .cos 1, .arith .div 2 0] : Prog R) := rfl
 
+/-- **The derivative component of a trace is the true derivative.**  Over ℝ, for a program
+    regular at the input point, the trace of result `k` in the run seeded at input `i` carries the
+    value of `k` and the derivative of that value with respect to input `i`. -/
+theorem dual_hasDerivAt (p : Prog ℝ) (env : Nat → ℝ) (hreg : p.Regular env) (i k : Nat) :
+    (getDual (Prog.execDual i env p) k).number = (Prog.eval env p).getD k 0 ∧
+    HasDerivAt (fun x => (Prog.eval (Function.update env i x) p).getD k 0)
+      (getDual (Prog.execDual i env p) k).derivative (env i) := by
+  obtain ⟨h1, h2⟩ := (dual_eq_grad p i env).2 k
+  exact ⟨h1, by rw [h2]; exact C04.grad_hasDerivAt p env hreg i k⟩
+
+example : Prog.Regular (fun _ => (3 : ℝ)) [.var, .numPow 2 0, .real .cos 1, .arithNum .div 2 5,
+    .real .sqrt 0] := by
+  simp [Prog.Regular, Prog.RegularFrom, Instr.Regular, Instr.val]
+
 end EasyMl.C05
